@@ -1,9 +1,64 @@
-(* C09 - shuttermint replicas never diverge.  (statements only; proofs in Proofs/) *)
-From Coq Require Import List NArith ZArith Bool.
-From Verif Require Import Lib.Bytes Model.App.
+(* C09 - shuttermint replicas never diverge.  (statements only; proofs in Proofs/AppDet.v)
+
+   The model applies an enumerator to the entries of a Go map wherever the code ranges over
+   a map (the vote tally of Voting.outcomeIndex, both loops of DiffPowermaps, and
+   Powermap.ValidatorUpdates); an enumerator may return any permutation, and may be a
+   different one for every call (the stream [es]). *)
+From Coq Require Import List NArith ZArith Bool Permutation String.
+From Verif Require Import Lib.Bytes Lib.Assoc Model.Powermap Model.App Proofs.AppDet.
 Import ListNotations.
 
-(* placeholder while the proofs are being written: the model is a function of state and call *)
-Theorem C09_step_is_function : forall s c, exists s' r, step s c = (s', r).
-Proof. intros s c. destruct (step s c) as [s' r]. exists s', r. reflexivity. Qed.
-Print Assumptions C09_step_is_function.
+(* Two replicas started from the same genesis and fed the same calls return the same
+   responses (codes, events in order, validator updates in order) and end in the same state,
+   whatever order their maps are enumerated in - for every genesis, every call sequence
+   (hence at every height: take prefixes) and every pair of enumerator streams. *)
+Theorem C09_replicas_agree : forall g s0 cs es1 es2,
+  init_chain g = Some s0 ->
+  (forall k, enum_ok (es1 k)) -> (forall k, enum_ok (es2 k)) ->
+  run_enums es1 0 s0 cs = run_enums es2 0 s0 cs.
+Proof. exact replicas_agree. Qed.
+Print Assumptions C09_replicas_agree.
+
+(* Nothing but the genesis and the calls enters: every replica's run equals the run of the
+   reference replica that enumerates maps in insertion order (the model has no clock, process
+   identity or address among its inputs by construction; the correspondence run ties that to
+   the code). *)
+Theorem C09_no_ambient_input : forall g s0 cs es,
+  init_chain g = Some s0 -> (forall k, enum_ok (es k)) ->
+  run_enums es 0 s0 cs = run enum_id s0 cs.
+Proof.
+  intros g s0 cs es Hi He. rewrite (run_is_run_enums enum_id cs 0%nat s0).
+  eapply replicas_agree; eauto. intros k. apply enum_id_ok.
+Qed.
+Print Assumptions C09_no_ambient_input.
+
+(* Voting.Outcome never indexes Candidates out of range. *)
+Theorem C09_outcome_never_panics : forall (T : Type) e (v : voting T) req, outcome e v req <> Some None.
+Proof. exact @outcome_never_panics. Qed.
+Print Assumptions C09_outcome_never_panics.
+
+(* The code before the repair (fix: commit in /repo, see known_findings/C09.json): the first
+   qualifying entry of the tally map in enumeration order - two enumerations of the same map
+   give different outcomes (two candidates with two votes each, threshold two). *)
+Theorem C09_legacy_outcome_refuted :
+  exists (enum1 enum2 : list (nat * nat)) (req : Z),
+    Permutation enum1 enum2 /\
+    legacy_outcome_index enum1 req <> legacy_outcome_index enum2 req.
+Proof. exact legacy_outcome_index_order_dependent. Qed.
+Print Assumptions C09_legacy_outcome_refuted.
+
+(* Non-vacuity: a genesis with four keypers and threshold two exists, and a history on it in
+   which a config vote passes (events) and validator updates are computed. *)
+Definition ex_k (i : N) : bytes := repeat i 20.
+Definition ex_genesis : genesis :=
+  mkGenesis [ex_k 1; ex_k 2; ex_k 3; ex_k 4] 2 0 false 0 [(repeat 7%N 32, 10%Z)] (hx "63") false.
+Definition ex_vote (i n : N) : call :=
+  CDeliver (Tx (ex_k i) (hx "63") n (PBatchConfig 0 [ex_k 1; ex_k 2; ex_k 3; ex_k 4] 2 1)).
+Example C09_replicas_agree_nonvacuous :
+  exists s0, init_chain ex_genesis = Some s0 /\
+  snd (run enum_id s0 [CBegin 1; ex_vote 1 1; ex_vote 2 2; CEnd 1; CCommit]) =
+  [RBegin [EvBatchConfig 0 2 [ex_k 1; ex_k 2; ex_k 3; ex_k 4] 0];
+   RDeliver 0 [];
+   RDeliver 0 [EvBatchConfig 0 2 [ex_k 1; ex_k 2; ex_k 3; ex_k 4] 1; EvEonStarted 1 0 1];
+   REnd [] []; RCommit].
+Proof. eexists. split; [reflexivity|]. vm_compute. reflexivity. Qed.
